@@ -1248,16 +1248,11 @@ func (e *Exec) applyKeeps(cc *callCtx, ctr *FuncContract, pre *State) {
 				dn, ds, vn, vs := e.mapNames(t)
 				ln, ls := e.mapLenName(t)
 				for _, c := range [][2]string{{dn, ds}, {vn, vs}, {ln, ls}} {
-					if _, ok := pre.comps[c[0]]; !ok {
-						continue
-					}
 					e.assume(Eq(Select(e.comp(cc.st, c[0], c[1]), v.Term), Select(e.comp(pre, c[0], c[1]), v.Term)), "")
 				}
 			case *types.Slice:
 				an, aso := e.arrName(t.Elem())
-				if _, ok := pre.comps[an]; ok {
-					e.assume(Eq(Select(e.comp(cc.st, an, aso), app("s_base", v.Term)), Select(e.comp(pre, an, aso), app("s_base", v.Term))), "")
-				}
+				e.assume(Eq(Select(e.comp(cc.st, an, aso), app("s_base", v.Term)), Select(e.comp(pre, an, aso), app("s_base", v.Term))), "")
 			default:
 				panic(fmt.Sprintf("fatal: contract of %s: keeps %s: not a map or slice", e.rootCtr.Name, ks.Text))
 			}
